@@ -193,3 +193,25 @@ func TestC07LearnerProtocolLinear(t *testing.T) {
 	runProperty(t, "C07", "schedsim-learner-protocol",
 		schedRuleCommon+"predeclared queue with 1-3 size classes and background learning limit 0-2, scripted analyzer whose learners ask for retries and background runs. Oracle: every selector receives exactly one of Select/Abandoned; no learner ever receives two terminal calls and after the final drain every learner except those of still-queued background runs received exactly one; a worker-reported failure on the first attempt with a learner asking for it is re-queued on the largest size class (and only then), otherwise the task completes with the worker's response; background runs carry do_not_cache and the learner's timeout, are bounded by the configured limit at the end; attempt timeouts equal what the analyzer said. Non-trivial: a retry on the largest size class or a background run was assigned; distinct by script hash", p)
 }
+
+func fairQueues(rt *rapid.T) []queueSpec {
+	stick := rapid.SampledFrom([][]int{nil, nil, {30}, {60, 30}, {30, 30}, {20, 40, 10}}).Draw(rt, "stickiness")
+	return []queueSpec{{Prefix: "", Platform: 0, Predeclared: true, SizeClasses: []uint32{1}, Stickiness: stick}}
+}
+
+func TestC04FairOrder(t *testing.T) {
+	ops := []string{
+		"execute", "execute", "execute", "execute", "execute",
+		"fairPick", "fairPick", "fairPick", "fairPick",
+		"fairComplete", "fairComplete", "fairComplete",
+		"fairAdvance", "fairAdvance", "fairAdvance", "cancelStream",
+	}
+	p := &profile{
+		name: "C04", ops: ops, minSteps: 8, maxSteps: 70, instances: []string{""},
+		queues: fairQueues, workers: [2]int{1, 4}, actions: [2]int{3, 6}, invDepth: [2]int{0, 3},
+		syncKinds: []string{"auto"}, finalDrain: false, fair: true,
+		nontrivial: func(l labels) bool { return l["fair_choice_among_2plus"] > 0 },
+	}
+	runProperty(t, "C04", "schedsim-fair-order",
+		schedRuleCommon+"single predeclared queue, invocation trees of depth 0-3 over 6 invocation paths, priorities from {-200,-100,0,1,100,MaxInt32,MinInt32}, expected durations from the scripted analyzer, stickiness limit lists of length 0-3, 1-4 protocol-following workers that report completion and ask for work in separate calls, clock advances of 1ns-45s between events. Oracle: an independent reference model of the documented policy computes, from the queue contents before each request, the SET of operations that may be handed out (direct operations by priority/longest expected duration/oldest; else child with lowest (executing+1)*2^(priority/100), exact ties to the least recently served, sticky invocation wins a tie only inside its per-level window); the task handed out must be in it; a task handed to a blocked worker must go to one sharing the longest invocation prefix with it; no task stays queued while an undrained worker is blocked. Non-trivial: a decision among >=2 queued tasks; labelled sub-classes: singleton acceptable set, nested depth>=2, stickiness retained at level 1/2; distinct by script hash", p)
+}
